@@ -30,6 +30,7 @@ type CEnv struct {
 	bound   map[string]Val
 	depth   int
 	assume  bool     // the formula is being assumed (not proved)
+	trig    bool     // evaluating a quantifier trigger term
 	pol     int      // +1 positive, -1 negative, 0 unknown polarity (only meaningful with assume)
 	outer   []string // enclosing bound variable terms ("name sort" pairs) for skolem functions
 	outerS  []string
@@ -442,6 +443,10 @@ func (c *CEnv) eval(e *Expr) Val {
 		v := c.eval(e.Args[0])
 		if m, ok := v.typ.Underlying().(*types.Map); ok {
 			k := c.eval(e.Args[1])
+			if c.trig {
+				M := s.region(c.heap, mapRegion(m), s.mapSort(m))
+				return Val{t: fmt.Sprintf("(select (select %s %s) %s)", M, v.t, k.t), typ: m.Elem()}
+			}
 			_, val := s.mapGet(c.heap, m, v.t, k.t)
 			return Val{t: val, typ: m.Elem()}
 		}
@@ -546,7 +551,9 @@ func (c *CEnv) eval(e *Expr) Val {
 		if len(e.Trig) > 0 {
 			var ts []string
 			for _, t := range e.Trig {
-				ts = append(ts, c2.nopol().eval(t).t)
+				tc := c2.nopol()
+				tc.trig = true // map lookups as plain selects: patterns may not contain ite/and
+				ts = append(ts, tc.eval(t).t)
 			}
 			bt = fmt.Sprintf("(! %s :pattern (%s))", bt, strings.Join(ts, " "))
 		}
